@@ -21,6 +21,28 @@ class ContainersMixin:
             return I(rv.n, "usize", len(rv.items))
         if name == "is_empty":
             return ip.eq(I(rv.n), I(0))
+        if name == "chunks":
+            # slice::chunks(cs): cs is enumerated over its feasible values (solver), each case with a concrete chunk size;
+            # chunk i = items[i*cs .. min((i+1)*cs, n)], number of chunks = ceil(n / cs); cs == 0 panics as in std
+            cs = D()
+            n = rv.n if not isinstance(rv.n, int) else z3.IntVal(rv.n)
+            cap = len(rv.items)
+            cases = [(True, cs.v)] if cs.conc() else ip.enumerate_int(cs.z(), 0, max(cap, 1))
+            res = None
+            for c, v in cases:
+                if v == 0:
+                    ip.panic(c, "chunk size must be non-zero")
+                    continue
+                v = min(v, max(cap, 1))         # a chunk size beyond the capacity behaves like the capacity
+                chunks = []
+                for i in range((cap + v - 1) // v):
+                    ln = z3.If(n - i * v >= v, v, z3.If(n - i * v > 0, n - i * v, 0))
+                    chunks.append(Vc(list(rv.items[i * v:(i + 1) * v]), z3.simplify(ln), "Vec"))
+                r = Vc(chunks, z3.simplify((n + v - 1) / v), "Vec")
+                res = r if res is None else ite(c, r, res)
+            if res is None:
+                return Seq([])          # dead path (no feasible chunk size)
+            return Seq(self.vec_seq(res))
         if name == "capacity":
             return I(rv.n, "usize")
         if name in ("reserve", "shrink_to_fit", "hash"):
